@@ -98,9 +98,9 @@ const FAMILIES: &[Family] = &[
     },
     Family {
         key: "double-variant-selection",
-        what: "two selections for the same variant type under one abstract parent (two inline fragments, or a spread plus an inline fragment): only the first selection's sub-selection is rendered",
-        enable: |c| c.gen.fam_double_variant = true,
-        feature: "double_variant",
+        what: "several selections for the same variant type under one abstract parent, one of them an inline fragment that holds nothing but a fragment spread: the shared variant struct is aliased to that fragment and the other selections' fields are lost",
+        enable: |c| c.gen.fam_double_variant_sole_spread = true,
+        feature: "double_variant_sole_spread",
         failure: &["re-serialised value differs", "missing field", "Err("],
     },
 ];
